@@ -746,6 +746,66 @@ func (e *Engine) possibleCallees(c *ssa.CallCommon) []*ssa.Function {
 	if f := c.StaticCallee(); f != nil {
 		return []*ssa.Function{f}
 	}
+	// call through a local function variable (e.g. a recursive closure
+	// "var f func(); f = func(){...}"): the closures stored in that cell
+	if u, ok := c.Value.(*ssa.UnOp); ok {
+		if fs := e.cellClosures(u.X, 0); fs != nil {
+			return fs
+		}
+	}
+	return nil
+}
+
+// cellClosures: all closures stored into the variable cell v, if every store is a closure literal
+func (e *Engine) cellClosures(v ssa.Value, depth int) []*ssa.Function {
+	if depth > 3 {
+		return nil
+	}
+	switch x := v.(type) {
+	case *ssa.Alloc:
+		var out []*ssa.Function
+		for _, ref := range *x.Referrers() {
+			switch r := ref.(type) {
+			case *ssa.Store:
+				if r.Addr != ssa.Value(x) {
+					return nil // address escapes as a value
+				}
+				switch val := r.Val.(type) {
+				case *ssa.MakeClosure:
+					out = append(out, val.Fn.(*ssa.Function))
+				case *ssa.Function:
+					out = append(out, val)
+				case *ssa.Const:
+					// nil initialisation
+				default:
+					return nil
+				}
+			case *ssa.UnOp, *ssa.DebugRef, *ssa.MakeClosure:
+			default:
+				return nil
+			}
+		}
+		return out
+	case *ssa.FreeVar:
+		fn := x.Parent()
+		parent := fn.Parent()
+		if parent == nil {
+			return nil
+		}
+		idx := -1
+		for i, fv := range fn.FreeVars {
+			if fv == x {
+				idx = i
+			}
+		}
+		for _, b := range parent.Blocks {
+			for _, ins := range b.Instrs {
+				if m, ok := ins.(*ssa.MakeClosure); ok && m.Fn == ssa.Value(fn) && idx >= 0 && idx < len(m.Bindings) {
+					return e.cellClosures(m.Bindings[idx], depth+1)
+				}
+			}
+		}
+	}
 	return nil
 }
 
